@@ -102,9 +102,10 @@ BUILTINS = {
     # self.symbols.iter()[.rev()].map(|table| table.lookup_X(name)).find(Self::stop_searching)
     #   -> search_lookup_X(&self.symbols, <rev present?>, name)        (rule 5: direction read off the chain; the
     #      predicate must be stop_searching and the element function a SymTable lookup of `name`)
-    'scope_search': (r'self\s*\.symbols\s*\.iter\(\)\s*(\.rev\(\))?\s*\.map\(\|table\| table\.(lookup_var|lookup_func)\(name\)\)'
+    'scope_search': (r'self\s*\.symbols\s*\.(iter|iter_mut)\(\)\s*(\.rev\(\))?\s*\.map\(\|table\| table\.(lookup_var|lookup_func|lookup_var_mut)\(name\)\)'
                      r'\s*\.find\(Self::stop_searching\)',
-                     lambda m: 'search_%s(&self.symbols, %s, name)' % (m.group(2), 'true' if m.group(1) else 'false')),
+                     lambda m: 'search_%s(&%sself.symbols, %s, name)' % (m.group(3), 'mut ' if m.group(1) == 'iter_mut' else '',
+                                                                        'true' if m.group(2) else 'false')),
     # diags.sort_by_key(|diag| diag.line)   -> {stable,unstable}_sort_by_line(&mut diags): which one is read off the
     # method name, so replacing the stable sort by an unstable one fails the ordering contract
     'sort_by_line': (r'diags\.(sort_by_key|sort_by_cached_key|sort_unstable_by_key)\(\|diag\| diag\.line\)',
@@ -554,9 +555,10 @@ def emit_fn(b, out, meta, unit_rw, unit_name):
     body, nrw = apply_rw(body, list(b.d['rw']) + [r for r in unit_rw], '%s::%s' % (rel, name), lost_rw)
     meta['rewrites'] += nrw
     newname = b.d['as'] or name
-    qm = re.findall(r'[A-Za-z_]\w*', ctx)
-    qm = [q for q in qm if len(q) > 1 and q not in ('impl', 'for', 'fn')]
-    qual = (qm[-1] + '::') if (qm and ctx not in ('-', '')) else ''
+    # the type the function belongs to: after ` for ` in a trait impl, else after `impl<..>`
+    cs = ctx.split(' for ', 1)[1] if ' for ' in ctx else re.sub(r'^\s*impl\s*(<[^>]*>)?\s*', '', ctx)
+    qm = re.match(r'\s*&?\s*([A-Za-z_]\w*)', cs)
+    qual = (qm.group(1) + '::') if (qm and ctx not in ('-', '')) else ''
     if b.d['sig']:
         sig = b.d['sig'].rstrip()
     else:
